@@ -169,7 +169,7 @@ func (fr *frame) callWithArgs(st *state, c *ssa.CallCommon, instr ssa.Instructio
 			}
 		}
 	}
-	if fr.top && fr.fc.c.Propagates {
+	if fr.top && (fr.fc.c.Propagates || fr.fc.c.OwnErrors) {
 		sig := c.Signature()
 		if n := sig.Results().Len(); n > 0 && isErrorType(sig.Results().At(n-1).Type()) && len(res) == n {
 			skip := false
@@ -178,7 +178,10 @@ func (fr *frame) callWithArgs(st *state, c *ssa.CallCommon, instr ssa.Instructio
 					skip = true
 				}
 			}
-			if !skip && instr != nil {
+			if fr.fc.c.OwnErrors && instr != nil && !isErrorConstructor(text) {
+				fr.allCallErrs = append(fr.allCallErrs, callErr{text: text, err: res[n-1], reach: st.reach, blk: instr.Block().Index})
+			}
+			if !skip && instr != nil && fr.fc.c.Propagates {
 				fr.callErrs = append(fr.callErrs, callErr{text: text, err: res[n-1], reach: st.reach, blk: instr.Block().Index})
 			}
 		}
@@ -938,4 +941,22 @@ func (fr *frame) evalClause(env *specEnv, x SExpr, src string) (t string, ok boo
 		}
 	}()
 	return env.evalBool(x, src), true
+}
+
+
+// isErrorConstructor: the call creates an error value (it does not report the failure of an operation).
+func isErrorConstructor(text string) bool {
+	if strings.HasPrefix(text, "errors.New(") || strings.HasPrefix(text, "fmt.Errorf(") {
+		return true
+	}
+	if i := strings.Index(text, "("); i > 0 {
+		name := text[:i]
+		if j := strings.LastIndex(name, "."); j >= 0 {
+			name = name[j+1:]
+		}
+		if strings.HasPrefix(name, "new") && strings.HasSuffix(name, "Error") {
+			return true
+		}
+	}
+	return false
 }
